@@ -14,26 +14,68 @@
 (* Section LS (C04): per response the residual sum of squares never increases with a (prev), never goes below *)
 (*   the least-squares optimum, meets it at a = rank together with the fitted values (Ols), coefficient form  *)
 (*   = score form on training and unseen rows (Beta), R2 / RMSE as defined (r2gap), affine equivariance.       *)
+(*                                                                                                            *)
+(* Shapes.  The quantifier of C03 is "all X in 6..40 x 1..12 ... nlv in 1..rank(X)": it contains square and    *)
+(*   wide X (objects <= variables), for which the statement's "full column rank" cannot hold.  The ledger     *)
+(*   reads "full rank" shape-wise: rank(preprocessed X) = RankBound(n, p, xs) = min(p, n-1 when centred, n      *)
+(*   otherwise) - for tall X that IS full column rank (ThRank).  Every identity of the statement is a NIPALS   *)
+(*   identity that holds for nlv <= rank whatever the shape, so all of them stay stated for square / wide X.   *)
+(*   A Fit whose logged numerical rank is below RankBound (duplicate / constant predictors) is modelled with   *)
+(*   the same identities but lies outside the statement (InStatement = FALSE: deviations are extra findings).  *)
+(* Tolerances are functions of the logged input: offx / offy = largest |entry| / rms spread of a block's      *)
+(*   column (how many spreads a CENTRED block sits away from the origin).  Back-transformed responses carry    *)
+(*   the representability term Repr(offy); a wide / square X exhausted at nlv = rank keeps the rounding of its  *)
+(*   centring along the vector of ones, Repr-like in offx and the number of objects.  Below 1000 spreads both  *)
+(*   terms are 0: the tolerance of the classes that existed before is TolAlg, unchanged (InvTolBase).          *)
 EXTENDS Layout, Sequences
-VARIABLES phase, nobj, nvar, xsc, ysc, k, colsSeen, residSeen, prev, lastA, floorRss
-pvars == <<ny, nlv, phase, nobj, nvar, xsc, ysc, k, colsSeen, residSeen, prev, lastA, floorRss>>
+VARIABLES phase, nobj, nvar, xsc, ysc, k, colsSeen, residSeen, prev, lastA, floorRss, rk, offx, offy
+shapeV == <<ny, nlv, nobj, nvar, xsc, ysc, rk, offx, offy>>           \* written by PFit only
+pvars == <<shapeV, phase, k, colsSeen, residSeen, prev, lastA, floorRss>>
 
 TolAlg == 10000              \* 1e-8 in units of 1e-12 (algebraic identities, DESIGN section 0)
 One == 1000000000            \* a response's total sum of squares, in the units of rss
 TolMono == 10                \* 1e-8 of the total sum of squares
 Sat == 2000000000            \* saturated quantiser value
 Abs(x) == IF x < 0 THEN -x ELSE x
+Min(a, b) == IF a < b THEN a ELSE b
 Resp == 0..(ny - 1)
+
+\* largest rank an n_ x p_ block can have after preprocessing option xs_ (options >= 0 centre: one dimension of the objects is lost)
+RankBound(n_, p_, xs_) == Min(p_, IF xs_ >= 0 THEN n_ - 1 ELSE n_)
+ShapeOf(n_, p_) == IF n_ > p_ + 1 THEN "tall" ELSE IF n_ = p_ + 1 THEN "tall1" ELSE IF n_ = p_ THEN "square"
+                   ELSE IF n_ = p_ - 1 THEN "wide1" ELSE "wide"
+Shapes == {"tall", "tall1", "square", "wide1", "wide"}
+\* tall X: the shape-wise reading IS full column rank; objects <= variables: full column rank is impossible, the bound is set by the objects
+ThRank == \A n_ \in 6..40, p_ \in 1..12, xs_ \in -1..5 :
+            LET r == RankBound(n_, p_, xs_) IN
+              /\ r >= 1 /\ r <= p_ /\ r <= n_ /\ ShapeOf(n_, p_) \in Shapes
+              /\ (ShapeOf(n_, p_) \in {"tall", "tall1"} <=> r = p_ /\ n_ > p_)
+              /\ (n_ <= p_ /\ xs_ >= 0 => r = n_ - 1 /\ r < p_)
+              /\ (n_ <= p_ /\ xs_ < 0 => r = n_)
+ASSUME ThRank
+
+\* the Fit on the ledger lies inside the statement: rank as large as its shape allows
+InStatement == rk = RankBound(nobj, nvar, xsc)
+\* representability of a number `off` spreads away from the origin: 2 roundings of 2^-53 relative each side, in units of 1e-12 of the spread
+\* (4.4e-16 * off -> off / 2273; off \div 1000 leaves a factor 2.2); 0 below 1000 spreads
+Repr(off) == off \div 1000
+TolY == TolAlg + Repr(offy)
+\* X exhausted at nlv = rank: what remains is the rounding of the centring (column mean by an n-term sum) along the vector of ones
+TolXfull == TolAlg + nobj * (offx \div 4000)
 
 PInit == /\ ny = 1 /\ nlv = 1 /\ phase = "idle" /\ nobj = 0 /\ nvar = 0 /\ xsc = 0 /\ ysc = 0 /\ k = 0
          /\ colsSeen = {} /\ residSeen = {} /\ prev = [j \in 0..3 |-> One] /\ lastA = [j \in 0..3 |-> 0]
-         /\ floorRss = [j \in 0..3 |-> 0]
+         /\ floorRss = [j \in 0..3 |-> 0] /\ rk = 1 /\ offx = 0 /\ offy = 0
 
-\* a model is fitted: the quantifier of the property (shapes, scaling options, LV count within the rank of X)
-PFit(n_, p_, ny_, nlv_, xs_, ys_) ==
+\* a model is fitted: the quantifier of the property (every shape 6..40 x 1..12, scaling options, LV count within the rank of X).
+\* rank_ = logged numerical rank of the preprocessed X, offx_ / offy_ = logged offsets of the two blocks (see the header)
+PFit(n_, p_, ny_, nlv_, xs_, ys_, rank_, offx_, offy_) ==
   /\ n_ \in 6..40 /\ p_ \in 1..12 /\ ny_ \in 1..4 /\ xs_ \in -1..5 /\ ys_ \in -1..5
-  /\ nlv_ \in 1..p_                                  \* p_ = rank of the preprocessed X (full column rank is admitted only)
+  /\ rank_ \in 1..RankBound(n_, p_, xs_)             \* no block has more rank than its shape allows
+  /\ nlv_ \in 1..rank_                                \* "every number of latent variables up to rank(X)"
+  /\ offx_ \in 0..Sat /\ offy_ \in 0..Sat
   /\ ny' = ny_ /\ nlv' = nlv_ /\ nobj' = n_ /\ nvar' = p_ /\ xsc' = xs_ /\ ysc' = ys_
+  /\ rk' = rank_ /\ offx' = offx_ /\ offy' = offy_
   /\ phase' = "fit" /\ k' = 0 /\ colsSeen' = {} /\ residSeen' = {}
   /\ prev' = [j \in 0..3 |-> One] /\ lastA' = [j \in 0..3 |-> 0] /\ floorRss' = [j \in 0..3 |-> 0]
 
@@ -45,21 +87,21 @@ PLv(a, tortho, wortho, recon, reproj) ==
   /\ phase = "fit" /\ a \in 1..nlv /\ a > k
   /\ PropLv(tortho, wortho, recon, reproj)
   /\ k' = a
-  /\ UNCHANGED <<ny, nlv, phase, nobj, nvar, xsc, ysc, colsSeen, residSeen, prev, lastA, floorRss>>
+  /\ UNCHANGED <<shapeV, phase, colsSeen, residSeen, prev, lastA, floorRss>>
 
 PCol(a, j, col, found, recalcErr, allErr) ==
   /\ phase = "fit" /\ a \in 1..nlv /\ j \in Resp
   /\ col = Col(a, j) /\ found = col /\ col \notin colsSeen            \* the table column that really holds (a, j)
-  /\ recalcErr <= TolAlg /\ allErr <= TolAlg
+  /\ recalcErr <= TolY /\ allErr <= TolY                              \* back-transformed: representability of the response
   /\ colsSeen' = colsSeen \cup {col}
-  /\ UNCHANGED <<ny, nlv, phase, nobj, nvar, xsc, ysc, k, residSeen, prev, lastA, floorRss>>
+  /\ UNCHANGED <<shapeV, phase, k, residSeen, prev, lastA, floorRss>>
 
 PResid(a, j, col, against, residErr) ==
   /\ phase = "fit" /\ a \in 1..nlv /\ j \in Resp
   /\ col = Col(a, j) /\ col \notin residSeen
   /\ against = RespOf(col) /\ residErr <= TolAlg                     \* residual column taken against its own response
   /\ residSeen' = residSeen \cup {col}
-  /\ UNCHANGED <<ny, nlv, phase, nobj, nvar, xsc, ysc, k, colsSeen, prev, lastA, floorRss>>
+  /\ UNCHANGED <<shapeV, phase, k, colsSeen, prev, lastA, floorRss>>
 
 \* integer-valued case: y, rec, res are the observed responses, recalculated_y and recalc_residuals in units of 1e-6
 \* (each rounded to nearest, hence the slack of 2 units); the layout map decides which response a column belongs to
@@ -75,10 +117,51 @@ PTab(n_, ny_, nlv_, y, rec, res) ==
 
 PEnd(lvs, cols, full, xfull) ==
   /\ phase = "fit" /\ lvs = nlv /\ cols = ny * nlv
-  /\ full = (IF nlv = nvar THEN 1 ELSE 0)
-  /\ (full = 1 => xfull <= TolAlg)                                    \* all of X is reproduced at full rank
+  /\ full = (IF nlv = rk THEN 1 ELSE 0)
+  /\ (full = 1 => xfull <= TolXfull)                                  \* all of X is reproduced once nlv = rank(X), whatever the shape
   /\ phase' = "done"
-  /\ UNCHANGED <<ny, nlv, nobj, nvar, xsc, ysc, k, colsSeen, residSeen, prev, lastA, floorRss>>
+  /\ UNCHANGED <<shapeV, k, colsSeen, residSeen, prev, lastA, floorRss>>
+
+\* the centring stored in the model is the column mean of the training data (options >= 0; relative to the column's spread): "preprocessed X"
+\* and "back-transformed" of the statement refer to THIS data, not to whatever vector the model happens to carry.  A mean by an n-term
+\* sum of numbers `off` spreads away from the origin carries n/2 roundings: same form as TolXfull
+TolMeanX == TolXfull
+TolMeanY == TolAlg + nobj * (offy \div 4000)
+PPrep(xavg, yavg) ==
+  /\ phase = "fit" /\ xavg <= TolMeanX /\ yavg <= TolMeanY
+  /\ UNCHANGED pvars
+\* how the present code defines the scale factor of each option (1 sample sd, 2 rms, 3 sqrt(sd), 4 range, 5 mean): C10's subject, kept here as
+\* the implementation-shaped layer
+ImplPrep(xscl, yscl) == xscl <= TolMeanX /\ yscl <= TolMeanY
+
+\* re-projection asked for req latent variables (more than the model has: clipped): the columns returned are the training scores
+PScore(req, got, err) ==
+  /\ phase = "fit" /\ req \in 1..(nlv + 2)
+  /\ got = Min(req, nlv) /\ err <= TolAlg
+  /\ UNCHANGED pvars
+
+\* PLSYPredictor from scores (src 0: stored, 1: re-projected) with a latent variables, a = nlv + 1 asks for more than the model has:
+\* the back-transformed sum of b_k t_k q_k over k <= min(a, nlv)
+PYPred(a, src, err) ==
+  /\ phase = "fit" /\ a \in 1..(nlv + 1) /\ src \in 0..1
+  /\ err <= TolY
+  /\ UNCHANGED pvars
+
+\* all-LV predictor with the scores returned: ny*nlv columns LV-major equal to the stored recalculated responses, nlv score columns
+PAllLv(cols, scols, scoreErr, err) ==
+  /\ phase = "fit" /\ cols = ny * nlv /\ cols = Cardinality(Cols) /\ scols = nlv
+  /\ scoreErr <= TolAlg /\ err <= TolY
+  /\ UNCHANGED pvars
+
+\* outside the statement (modelled all the same): explained X variance of LV a is 100 t't / ss(X); a fit repeated in one process
+\* after other fits returns bitwise the same model
+PVarExp(a, err) == phase = "fit" /\ a \in 1..nlv /\ err <= TolAlg /\ UNCHANGED pvars
+PHist(fits, same) == phase = "fit" /\ fits \in 2..4 /\ same = 1 /\ UNCHANGED pvars
+\* PLS() once more into the model object that already holds this very fit: the model is the same model again (nlv coefficients,
+\* ny*nlv recalculated columns, nlv explained variances), not a longer one
+PRefit(rc, bsize, reccols, varexp, same) ==
+  /\ phase = "fit" /\ rc = 0 /\ bsize = nlv /\ reccols = ny * nlv /\ varexp = nlv /\ same = 1
+  /\ UNCHANGED pvars
 
 \* ---------------------------------------------------------------------------------------------- C04 least squares
 \* rss = RSS_a(j) / D_j in units of 1e-9 (D_j = sum of squares of response j about its mean when the response is
@@ -89,7 +172,7 @@ PRss(a, j, rss, r2gap) ==
   /\ rss >= floorRss[j] - TolMono                                    \* ... and never beats the least-squares optimum
   /\ r2gap <= TolAlg
   /\ prev' = [prev EXCEPT ![j] = rss] /\ lastA' = [lastA EXCEPT ![j] = a]
-  /\ UNCHANGED <<ny, nlv, phase, nobj, nvar, xsc, ysc, k, colsSeen, residSeen, floorRss>>
+  /\ UNCHANGED <<shapeV, phase, k, colsSeen, residSeen, floorRss>>
 
 \* rssOls = RSS of the independent least-squares fit (LAPACK dgels), rssPls = RSS of the model with all its nlv LVs, same units;
 \* err = |PLS fitted - OLS fitted| (relative).  The event is self-contained (a rejected and dropped Rss event must not make it fail);
@@ -102,7 +185,7 @@ POls(j, rssPls, rssOls, err, full) ==
   /\ prev[j] >= rssOls - TolMono
   /\ (full = 1 => err <= TolAlg /\ Abs(rssPls - rssOls) <= TolMono)   \* a = rank: PLS is OLS
   /\ floorRss' = [floorRss EXCEPT ![j] = rssOls]
-  /\ UNCHANGED <<ny, nlv, phase, nobj, nvar, xsc, ysc, k, colsSeen, residSeen, prev, lastA>>
+  /\ UNCHANGED <<shapeV, phase, k, colsSeen, residSeen, prev, lastA>>
 
 PBeta(a, errTrain, errNew) ==
   /\ phase = "fit" /\ ny = 1 /\ a \in 1..nlv
@@ -137,14 +220,43 @@ PReuse(calls, err) ==
 \* the ledger is run over a small alphabet of magnitudes; the invariants below must follow from the step guards
 ErrVals == {0, TolAlg, TolAlg + 1}
 RssVals == {0, 300000000, 300000000 + TolMono, 300000000 + TolMono + 1, One, One + TolMono + 1}
-MFit == \E p_ \in 1..2, ny_ \in 1..2, nlv_ \in 1..2, ys_ \in {-1, 0} : PFit(6, p_, ny_, nlv_, 1, ys_)
-\* structure scope (C03)
+MFit == \E p_ \in 1..2, ny_ \in 1..2, nlv_ \in 1..2, ys_ \in {-1, 0} : PFit(6, p_, ny_, nlv_, 1, ys_, p_, 0, 0)
+\* structure scope (C03): tall / n = p+1 / square / n = p-1 / wide shapes, centred or not, rank at or below its bound, offsets below and
+\* above the representability threshold
+OffVals == {0, 999, 8000000}
+TolYVals == ErrVals \cup {TolAlg + 8000, TolAlg + 8001}                                        \* around TolY for 8e6 spreads
+XfullVals == ErrVals \cup {TolAlg + 12000, TolAlg + 12001, TolAlg + 14000, TolAlg + 14001}     \* around TolXfull for 6 / 7 objects
+\* <<objects, variables, x option, logged rank>>: tall, n = p+1, square (centred / not), n = p-1, wide; rank at its bound and below it
+FitCfgs == { <<6, 2, 1, 2>>, <<6, 5, 1, 5>>, <<7, 6, 1, 2>>, <<6, 6, 1, 5>>, <<6, 6, -1, 6>>, <<7, 7, 1, 1>>,
+             <<6, 7, 1, 5>>, <<6, 7, 1, 2>>, <<7, 8, -1, 1>>, <<6, 8, 1, 2>>, <<6, 8, -1, 6>>, <<6, 8, 1, 3>> }
+MFitS == /\ phase = "idle" \/ (phase = "done" /\ colsSeen = Cols /\ residSeen = Cols)      \* the next model after a complete one
+         /\ \E c \in FitCfgs, ny_ \in 1..MaxNy, nlv_ \in 1..MaxNlv, o_ \in OffVals : PFit(c[1], c[2], ny_, nlv_, c[3], 0, c[4], o_, o_)
+MLv == 1..MaxNlv
+\* the guards of the stateless actions read the shape only, never the progress of the ledger: in the small model they are tried in one
+\* state per fit (the fresh one)
+MFresh == phase = "fit" /\ k = 0 /\ colsSeen = {} /\ residSeen = {}
+MScore(q, g, e) == MFresh /\ PScore(q, g, e)
+MYPred(a, s, e) == MFresh /\ PYPred(a, s, e)
+MAllLv(c, g, e, f) == MFresh /\ PAllLv(c, g, e, f)
+MVarExp(a, e) == MFresh /\ PVarExp(a, e)
+MHist(f, g) == MFresh /\ PHist(f, g)
+MPrep(e, f) == MFresh /\ PPrep(e, f)
+MRefit(rc, b_, c, v, g) == MFresh /\ PRefit(rc, b_, c, v, g)
+MResp == 0..(MaxNy - 1)
+MCols == 0..(MaxNy * MaxNlv - 1)
 MNextStruct ==
-  \/ MFit
-  \/ \E a \in 1..2, e \in ErrVals : PLv(a, e, 0, 0, 0) \/ PLv(a, 0, e, 0, 0) \/ PLv(a, 0, 0, e, 0) \/ PLv(a, 0, 0, 0, e)
-  \/ \E a \in 1..2, j \in 0..1, c \in 0..3, f \in 0..3, e \in ErrVals : PCol(a, j, c, f, e, 0) \/ PCol(a, j, c, f, 0, e)
-  \/ \E a \in 1..2, j \in 0..1, c \in 0..3, g \in 0..1, e \in ErrVals : PResid(a, j, c, g, e)
-  \/ \E f \in 0..1, e \in ErrVals : PEnd(nlv, ny * nlv, f, e)
+  \/ MFitS
+  \/ \E a \in MLv, e \in ErrVals : PLv(a, e, 0, 0, 0) \/ PLv(a, 0, e, 0, 0) \/ PLv(a, 0, 0, e, 0) \/ PLv(a, 0, 0, 0, e)
+  \/ \E a \in MLv, j \in MResp, c \in MCols : \E f \in {c, (c + 1) % (MaxNy * MaxNlv)}, e \in TolYVals : PCol(a, j, c, f, e, 0) \/ PCol(a, j, c, f, 0, e)
+  \/ \E a \in MLv, j \in MResp, c \in MCols, g \in MResp, e \in ErrVals : PResid(a, j, c, g, e)
+  \/ \E q \in 1..(MaxNlv + 2), g \in MLv, e \in ErrVals : MScore(q, g, e)
+  \/ \E a \in 1..(MaxNlv + 1), s \in 0..1, e \in TolYVals : MYPred(a, s, e)
+  \/ \E c \in 1..(MaxNy * MaxNlv), g \in MLv, e \in TolYVals : MAllLv(c, g, e, 0) \/ MAllLv(c, g, 0, e)
+  \/ \E a \in MLv, e \in ErrVals : MVarExp(a, e)
+  \/ \E f \in 2..4, g \in 0..1 : MHist(f, g)
+  \/ \E e \in XfullVals : MPrep(e, 0) \/ MPrep(0, e)
+  \/ \E b_ \in 1..(2 * MaxNlv), c \in 1..(2 * MaxNy * MaxNlv), g \in 0..1, rc \in {0, 99} : MRefit(rc, b_, c, b_, g)
+  \/ \E f \in 0..1, e \in XfullVals : PEnd(nlv, ny * nlv, f, e)
 \* least-squares scope (C04)
 MNextLS ==
   \/ MFit
@@ -158,7 +270,12 @@ MNextLS ==
 MSpecStruct == PInit /\ [][MNextStruct]_pvars
 MSpecLS == PInit /\ [][MNextLS]_pvars
 
-InvShape == phase = "idle" \/ (k <= nlv /\ nlv <= nvar)
+InvShape == phase = "idle" \/ (k <= nlv /\ nlv <= rk /\ rk <= nvar /\ rk <= nobj /\ rk <= RankBound(nobj, nvar, xsc))
+\* objects <= variables and centred: no accepted model has as many latent variables as objects
+InvWide == (phase # "idle" /\ nobj <= nvar /\ xsc >= 0) => nlv < nobj
+\* the offset terms never go below the algebraic tolerance and vanish for the classes that existed before (|offset| < 1000 spreads)
+InvTolBase == /\ TolY >= TolAlg /\ TolXfull >= TolAlg /\ TolMeanY >= TolAlg
+              /\ (offy < 1000 => TolY = TolAlg /\ TolMeanY = TolAlg) /\ (offx < 4000 => TolXfull = TolAlg)
 InvCols == colsSeen \subseteq Cols /\ residSeen \subseteq Cols
 \* R2 of every accepted step stays inside [0, 1] up to the accumulated slack, and is monotone from the start
 InvR2Range == \A j \in Resp : prev[j] >= 0 /\ prev[j] <= One + lastA[j] * TolMono
